@@ -946,6 +946,14 @@ func (e *Engine) findIndicesTeddyAt(haystack []byte, at int) (int, int, bool) {
 	return e.findIndicesNFAAt(haystack, pos)
 }
 
+// digitCandidateBudget is the number of digit candidates that may fail
+// verification before the digit-prefilter loops give up on the prefilter and let
+// the NFA engine search the rest of the haystack. Each verification is an
+// anchored scan of unbounded length, so without a budget a haystack with many
+// failing candidates costs candidates x scan length (\d\d*-x on a long run of
+// digits: quadratic).
+const digitCandidateBudget = 64
+
 // findIndicesDigitPrefilter returns indices using digit prefilter - zero alloc.
 func (e *Engine) findIndicesDigitPrefilter(haystack []byte) (int, int, bool) {
 	// Longest (POSIX) mode: the anchored DFA verification is leftmost-first.
@@ -960,6 +968,7 @@ func (e *Engine) findIndicesDigitPrefilter(haystack []byte) (int, int, bool) {
 	state := e.getSearchState()
 	defer e.putSearchState(state)
 
+	failed := 0 // candidates that did not verify
 	for pos < len(haystack) {
 		digitPos := e.digitPrefilter.Find(haystack, pos)
 		if digitPos < 0 {
@@ -991,6 +1000,14 @@ func (e *Engine) findIndicesDigitPrefilter(haystack []byte) (int, int, bool) {
 				pos++
 			}
 		}
+
+		// Every failed candidate may have cost a scan of arbitrary length, and
+		// nothing bounds their number: hand the rest of the haystack to the
+		// linear-time engine once the budget is used up.
+		failed++
+		if failed >= digitCandidateBudget {
+			return e.findIndicesNFAAtWithState(haystack, pos, state)
+		}
 	}
 
 	return -1, -1, false
@@ -1010,6 +1027,7 @@ func (e *Engine) findIndicesDigitPrefilterAt(haystack []byte, at int) (int, int,
 	state := e.getSearchState()
 	defer e.putSearchState(state)
 
+	failed := 0 // candidates that did not verify
 	for pos < len(haystack) {
 		digitPos := e.digitPrefilter.Find(haystack, pos)
 		if digitPos < 0 {
@@ -1038,6 +1056,13 @@ func (e *Engine) findIndicesDigitPrefilterAt(haystack []byte, at int) (int, int,
 				pos++
 			}
 		}
+
+		// Bounded number of failed candidates, then the linear-time engine
+		// (see digitCandidateBudget).
+		failed++
+		if failed >= digitCandidateBudget {
+			return e.findIndicesNFAAtWithState(haystack, pos, state)
+		}
 	}
 
 	return -1, -1, false
@@ -1054,6 +1079,7 @@ func (e *Engine) findIndicesDigitPrefilterAtWithState(haystack []byte, at int, s
 	atomic.AddUint64(&e.stats.PrefilterHits, 1)
 	pos := at
 
+	failed := 0 // candidates that did not verify
 	for pos < len(haystack) {
 		digitPos := e.digitPrefilter.Find(haystack, pos)
 		if digitPos < 0 {
@@ -1080,6 +1106,13 @@ func (e *Engine) findIndicesDigitPrefilterAtWithState(haystack []byte, at int, s
 			for pos < len(haystack) && haystack[pos] >= '0' && haystack[pos] <= '9' {
 				pos++
 			}
+		}
+
+		// Bounded number of failed candidates, then the linear-time engine
+		// (see digitCandidateBudget).
+		failed++
+		if failed >= digitCandidateBudget {
+			return e.findIndicesNFAAtWithState(haystack, pos, state)
 		}
 	}
 
